@@ -305,9 +305,30 @@ type Lit struct {
 type Term []Lit
 type DNF []Term
 
+// atom normalises a literal: `x == nil` and `x != nil` (two different SSA comparisons of
+// canonically equal operands) are the same atom with opposite polarity.
+func (l Lit) atom() (string, bool) {
+	if bo, ok := l.Cond.(*ssa.BinOp); ok && (bo.Op == token.EQL || bo.Op == token.NEQ) {
+		x, y := Canon(bo.X), Canon(bo.Y)
+		if y < x {
+			x, y = y, x
+		}
+		return "eq(" + x + "," + y + ")", (bo.Op == token.EQL) == l.Val
+	}
+	if un, ok := l.Cond.(*ssa.UnOp); ok && un.Op == token.NOT {
+		k, pol := Lit{Cond: un.X, Val: !l.Val}.atom()
+		return k, pol
+	}
+	return uniq(l.Cond), l.Val
+}
+
 func (t Term) has(l Lit) bool {
+	k, p := l.atom()
 	for _, x := range t {
 		if x == l {
+			return true
+		}
+		if xk, xp := x.atom(); xk == k && xp == p {
 			return true
 		}
 	}
